@@ -83,9 +83,9 @@ func c16WriteFor(pos, atom string) c16Write {
 type c16Env struct {
 	rejected map[string]bool
 	db       gdbi.GraphDB
-	kv  *memkv.KV
-	w   gmodel.World
-	via string
+	kv       *memkv.KV
+	w        gmodel.World
+	via      string
 }
 
 func c16Baseline(via string) *c16Env {
